@@ -22,6 +22,16 @@ Atom(n) ==
     [] n = "pZs" -> Esc("p", "Zs") [] n = "PZs" -> Esc("P", "Zs")
     [] n = "pCc" -> Esc("p", "Cc") [] n = "PC" -> Esc("P", "C")
     [] n = "pS" -> Esc("p", "S")   [] n = "PSo" -> Esc("P", "So")
+    \* g groups followed by \digits (see Regex!RefD): r<g>_<digits>
+    [] n = "r1_15" -> RefD(1, <<1, 5>>)       [] n = "r1_155" -> RefD(1, <<1, 5, 5>>)
+    [] n = "r1_1555" -> RefD(1, <<1, 5, 5, 5>>) [] n = "r1_125" -> RefD(1, <<1, 2, 5>>)
+    [] n = "r2_25" -> RefD(2, <<2, 5>>)       [] n = "r2_255" -> RefD(2, <<2, 5, 5>>)
+    [] n = "r2_155" -> RefD(2, <<1, 5, 5>>)
+    [] n = "r10_105" -> RefD(10, <<1, 0, 5>>) [] n = "r10_1055" -> RefD(10, <<1, 0, 5, 5>>)
+    [] n = "r10_155" -> RefD(10, <<1, 5, 5>>) [] n = "r10_255" -> RefD(10, <<2, 5, 5>>)
+    [] n = "r10_10" -> RefD(10, <<1, 0>>)
+    [] n = "r12_125" -> RefD(12, <<1, 2, 5>>) [] n = "r12_1255" -> RefD(12, <<1, 2, 5, 5>>)
+    [] n = "r12_155" -> RefD(12, <<1, 5, 5>>) [] n = "r12_1155" -> RefD(12, <<1, 1, 5, 5>>)
     [] n = "c_ab"  -> Cls(<<IChr(LA), IChr(LB)>>, FALSE, <<>>)                              \* [ab]
     [] n = "c_na"  -> Cls(<<IChr(LA)>>, TRUE, <<>>)                                         \* [^a]
     [] n = "c_A"   -> Cls(<<IChr(UA)>>, FALSE, <<>>)                                        \* [A]
